@@ -5,6 +5,7 @@ import (
 	"encoding/base64"
 	"encoding/binary"
 	"fmt"
+	"github.com/ipfs/go-cid"
 	"math"
 	"math/rand/v2"
 	"os"
@@ -37,8 +38,8 @@ import (
 )
 
 const (
-	c09BulkQuick, c09BombQuick       = 8, 35
-	c09BulkThorough, c09BombThorough = 16, 35
+	c09BulkQuick, c09BombQuick       = 8, 38
+	c09BulkThorough, c09BombThorough = 16, 38
 )
 
 func init() {
@@ -64,7 +65,7 @@ func init() {
 		MinEvals:    floor(100000, 2000000),
 		MinDistinct: floor(20000, 300000),
 		RequiredCells: func(string) []string {
-			cells := []string{"family/a-random", "family/b-mutants", "family/c-signed-malformed", "family/d-bad-key-material", "family/e-hostile-lengths", "family/f-policy-x-data", "bomb/cbor-list", "bomb/cbor-map", "bomb/json-list", "bomb/policy-not", "bomb/signed-deep-args", "bomb/signed-deep-pol", "bomb/selector-long", "bomb/policy-nested-any-failing", "bomb/policy-nested-all-passing", "bomb/policy-nested-and-or-not", "bomb/car-zero-sections", "bomb/cbor-container-empty-entries", "bomb/json-whitespace", "bomb/json-wide-list", "bomb/selector-question-marks", "bomb/signed-wide-args", "bomb/signed-wide-pol", "car-length-sweep", "like-families", "selector/quoted-names", "concurrent-hostile-decoding", "rss-measured", "past-first-layer"}
+			cells := []string{"family/a-random", "family/b-mutants", "family/c-signed-malformed", "family/d-bad-key-material", "family/e-hostile-lengths", "family/f-policy-x-data", "bomb/cbor-list", "bomb/cbor-map", "bomb/json-list", "bomb/policy-not", "bomb/signed-deep-args", "bomb/signed-deep-pol", "bomb/selector-long", "bomb/policy-nested-any-failing", "bomb/policy-nested-all-passing", "bomb/policy-nested-and-or-not", "bomb/car-zero-sections", "bomb/cbor-container-empty-entries", "bomb/json-whitespace", "bomb/json-wide-list", "bomb/selector-question-marks", "bomb/signed-wide-args", "bomb/signed-wide-pol", "car-length-sweep", "like-families", "selector/quoted-names", "container/framing-kinds", "concurrent-hostile-decoding", "rss-measured", "past-first-layer"}
 			for _, e := range []string{"token.FromSealed", "token.FromDagJson", "delegation.FromSealed", "invocation.FromSealed", "container.FromCbor", "container.FromCar", "container.FromCborBase64", "container.FromCarBase64", "policy.FromDagJson", "policy.FromIPLD", "Policy.Match", "selector.Parse", "Selector.Select", "did.Parse", "DID.PubKey", "args.Add", "literal.Any"} {
 				cells = append(cells, "entry/"+e)
 			}
@@ -138,6 +139,50 @@ type c09 struct {
 	bulk       bool     // bulk shard: many small inputs in one process
 	concurrent [][]byte // hostile tokens replayed from many goroutines at once
 	bigCalls   int
+	// perCall: the kernel lets this process reset its RSS high-water mark, so peak memory is
+	// measured per call (bulk shards)
+	perCall bool
+	// lastHeld: memory the runtime had obtained from the OS and not given back when the last call
+	// returned (pages set aside for a large allocation count here even if never touched)
+	lastHeld int64
+}
+
+// resetHWM resets the kernel's RSS high-water mark of this process to its current RSS.
+func resetHWM() bool { return os.WriteFile("/proc/self/clear_refs", []byte("5"), 0) == nil }
+
+// announcedBeyondInput: the input (or what it carries in base64) holds a CBOR list / map head
+// with a 2-, 4- or 8-byte length that announces more entries than the input has bytes.
+func announcedBeyondInput(in []byte) bool {
+	scan := func(b []byte) bool {
+		for i := 0; i < len(b); i++ {
+			var n uint64
+			switch b[i] {
+			case 0x99, 0xb9:
+				if i+3 <= len(b) {
+					n = uint64(b[i+1])<<8 | uint64(b[i+2])
+				}
+			case 0x9a, 0xba:
+				if i+5 <= len(b) {
+					n = uint64(binary.BigEndian.Uint32(b[i+1 : i+5]))
+				}
+			case 0x9b, 0xbb:
+				if i+9 <= len(b) {
+					n = binary.BigEndian.Uint64(b[i+1 : i+9])
+				}
+			}
+			if n > uint64(len(b)) && n > 1<<16 {
+				return true
+			}
+		}
+		return false
+	}
+	if scan(in) {
+		return true
+	}
+	if dec, err := base64.StdEncoding.DecodeString(string(bytes.TrimSpace(in))); err == nil && scan(dec) {
+		return true
+	}
+	return false
 }
 
 // call runs one entry point on one input under the monitors.
@@ -175,15 +220,19 @@ func (c *c09) call(entry, inputClass string, input []byte, f func()) {
 		c.maxInput = len(input)
 	}
 	var hwm0 int64
-	if c.bulk && c09RSSDebug {
+	if c.bulk && (c09RSSDebug || c.perCall) {
 		hwm0 = vmHWM()
 	}
+	heldBefore := c.lastHeld
 	pi := mon.Guard(f)
 	close(done)
 	used := cpuNow() - cpu0
 	if c.bulk && c09RSSDebug {
 		if d := vmHWM() - hwm0; d > 32<<20 {
 			w.Note(fmt.Sprintf("rss-jump/%s/%d", label, c.bigCalls), fmt.Sprintf("+%d MiB to %d MiB on a %d-byte input %x", d>>20, vmHWM()>>20, len(input), capBytes(input, 48)))
+			if d > 200<<20 && len(input) < 1<<20 {
+				_ = os.WriteFile(fmt.Sprintf("%s/rss-jump-%d-%s-%d.bin", os.TempDir(), os.Getpid(), strings.ReplaceAll(label, "/", "_"), c.bigCalls), input, 0o644)
+			}
 		}
 	}
 	// calls that may legitimately allocate tens of MiB for a tiny input (a CAR section that
@@ -191,11 +240,39 @@ func (c *c09) call(entry, inputClass string, input []byte, f func()) {
 	// high-water mark reflects what ONE call holds, not the garbage of many
 	// (the runtime's own accounting is read after every call - about a microsecond - and memory is
 	// handed back as soon as more than 160 MiB are mapped)
+	metrics.Read(c09MemSamples[:])
+	c.lastHeld = int64(c09MemSamples[0].Value.Uint64() - c09MemSamples[1].Value.Uint64())
 	if c.bulk {
-		metrics.Read(c09MemSamples[:])
-		if c09MemSamples[0].Value.Uint64()-c09MemSamples[1].Value.Uint64() > 160<<20 {
+		if c.lastHeld > 160<<20 {
 			c.bigCalls++
+			{
+				// memory of this call: what the runtime holds now (large allocations count whether or not
+				// their pages were touched) and, where the high-water mark could be reset after the last
+				// big call, the peak RSS since then
+				// (growth over what was held when the call began; the RSS peak likewise counts only as
+				// far as it rose above the mark it was reset to)
+				peak := c.lastHeld - heldBefore
+				if c.perCall {
+					if h := vmHWM() - hwm0; h > peak {
+						peak = h
+					}
+				}
+				bound := int64(512<<20) + 4096*int64(len(input))
+				if peak > bound {
+					sig := "memory-bound/call/" + entry + "/" + inputClass
+					what := ""
+					if announcedBeyondInput(input) {
+						sig = "memory-bound/announced-length/" + entry
+						what = " (the input announces more list / map entries than it has bytes)"
+					}
+					w.Violate(sig, fmt.Sprintf("memory grew by %d MiB (held by the runtime / resident) during %s on a %d-byte %s input: more than 512 MiB + 4096 x input%s", peak>>20, entry, len(input), inputClass, what),
+						map[string]any{"entry": entry, "input_class": inputClass, "input_len": len(input), "input_hex": mon.Hex(capBytes(input, 8192)), "peak_rss": peak, "rss_before_call": hwm0})
+				}
+			}
 			debug.FreeOSMemory()
+			if c.perCall {
+				resetHWM()
+			}
 		}
 	}
 	w.Eval(1)
@@ -431,6 +508,7 @@ func c09Bulk(w *mon.W, part, parts int) {
 	debug.SetMemoryLimit(256 << 20)
 	r := w.Rng
 	c := &c09{w: w, bulk: true}
+	c.perCall = resetHWM()
 	share := func(total int) int {
 		n := total / parts
 		if part < total%parts {
@@ -512,6 +590,50 @@ func c09Bulk(w *mon.W, part, parts int) {
 		default:
 			c.call("policy.FromDagJson", "random", b, func() { _, _ = policy.FromDagJson(string(b)) })
 		}
+	}
+
+	// container framing with every kind of value in every structural position: the CAR header
+	// ({roots, version}) and the CBOR container ({"ctn-v1": [...]}) with each field holding each
+	// kind (empty ones included), fields missing, renamed or extra, and something else than a map
+	// at the top; with and without a valid section behind
+	{
+		kinds := make([]ref.V, 0, len(kindNamesAll)+4)
+		for _, k := range kindNamesAll {
+			kinds = append(kinds, kindSamplesAll[k])
+		}
+		kinds = append(kinds, ref.Int(-1), ref.Uint(1<<63), ref.List(ref.Int(1), ref.Str("x")), ref.List(ref.List()))
+		empty, _ := cid.Cast([]byte{1, 0x55, 0, 0})
+		goodRoots, goodVersion := ref.List(ref.Link(empty)), ref.Int(1)
+		var headers []ref.V
+		for _, k := range kinds {
+			headers = append(headers,
+				ref.Map(ref.E("roots", k), ref.E("version", goodVersion)),
+				ref.Map(ref.E("roots", goodRoots), ref.E("version", k)),
+				ref.Map(ref.E("roots", ref.List(k)), ref.E("version", goodVersion)),
+				ref.Map(ref.E("roots", k)), ref.Map(ref.E("version", k)),
+				ref.Map(ref.E("roots", goodRoots), ref.E("version", goodVersion), ref.E("x", k)),
+				k,
+				ref.Map(ref.E("ctn-v1", k)), ref.Map(ref.E("ctn-v1", ref.List(k))), ref.Map(ref.E("ctn-v1", ref.List(ref.Bytes([]byte{1}), k))), ref.Map(ref.E("ctn-v2", k)),
+			)
+		}
+		section := append(append([]byte{}, empty.Bytes()...), 0x01)
+		for hi, h := range headers {
+			if hi%parts != part {
+				continue
+			}
+			hb, err := ref.EncodeDagCbor(h)
+			if err != nil {
+				continue
+			}
+			car := append(binary.AppendUvarint(nil, uint64(len(hb))), hb...)
+			c.containerEntries("framing-kinds", car)
+			c.containerEntries("framing-kinds", append(append(append([]byte{}, car...), binary.AppendUvarint(nil, uint64(len(section)))...), section...))
+			c.containerEntries("framing-kinds", hb)
+			c.containerEntries("framing-kinds", []byte(base64.StdEncoding.EncodeToString(car)))
+			c.containerEntries("framing-kinds", []byte(base64.StdEncoding.EncodeToString(hb)))
+			w.Distinct("framing-kinds", hb)
+		}
+		w.Cover("container/framing-kinds")
 	}
 
 	// quoted field names: every body of up to 4 characters over the characters that matter to a
@@ -949,15 +1071,12 @@ func c09Bulk(w *mon.W, part, parts int) {
 			w.Sample(map[string]any{"family": "f", "policy": mon.Trunc(pv.String(), 300), "data_values": len(data)})
 		}
 	}
-	// peak memory of the whole bulk shard against the bound of the largest input it offered
+	// memory was judged call by call (what the runtime held after the call, and the peak RSS where
+	// the kernel lets the process reset its high-water mark); the shard's own peak is only noted:
+	// it adds up the garbage of consecutive calls and says nothing about any one of them
 	if hwm := vmHWM(); hwm > 0 {
 		w.Cover("rss-measured")
-		bound := int64(512<<20) + 4096*int64(c.maxInput)
-		w.Note(fmt.Sprintf("rss/bulk-part-%d", part), fmt.Sprintf("largest input %d bytes, peak RSS %d MiB (bound %d MiB)", c.maxInput, hwm>>20, bound>>20))
-		if hwm > bound {
-			w.Violate("memory-bound/bulk", fmt.Sprintf("peak RSS %d MiB of a worker whose largest input was %d bytes exceeds 512 MiB + 4096 x input", hwm>>20, c.maxInput),
-				map[string]any{"largest_input": c.maxInput, "peak_rss": hwm})
-		}
+		w.Note(fmt.Sprintf("rss/bulk-part-%d", part), fmt.Sprintf("largest input %d bytes, peak RSS of the shard %d MiB, %d calls left more than 160 MiB mapped and were measured individually (high-water mark reset per call: %v)", c.maxInput, hwm>>20, c.bigCalls, c.perCall))
 	}
 }
 
@@ -1239,6 +1358,12 @@ func c09Bombs(w *mon.W, part, parts int) {
 			_, _ = policy.FromIPLD(nd)
 			_ = dagjson.Encode
 		}, 1000000, nil},
+		// map headers that ANNOUNCE four million entries each, nested n deep (seven bytes a level,
+		// no entry follows): what the decoder sets aside for an announcement is not charged to its
+		// allocation budget
+		{"cbor-announced-map-entries", "token.FromSealed", func(n int) []byte { return bytes.Repeat([]byte{0xba, 0x00, 0x40, 0x00, 0x00, 0x61, 0x61}, n) }, func(in []byte) { _, _, _ = token.FromSealed(in) }, 0, []int{1, 2, 3}},
+		{"cbor-announced-map-entries", "container.FromCbor", func(n int) []byte { return bytes.Repeat([]byte{0xba, 0x00, 0x40, 0x00, 0x00, 0x61, 0x61}, n) }, func(in []byte) { _, _ = container.FromCbor(in) }, 0, []int{1, 2, 3}},
+		{"cbor-announced-list-entries", "delegation.FromSealed", func(n int) []byte { return bytes.Repeat([]byte{0x9a, 0x00, 0x80, 0x00, 0x00}, n) }, func(in []byte) { _, _, _ = delegation.FromSealed(in) }, 0, []int{1, 2, 4, 8}},
 	}
 	if len(all) != parts {
 		w.Inconclusive(fmt.Sprintf("C09: %d bomb series but %d bomb shards", len(all), parts))
@@ -1275,9 +1400,10 @@ func c09Bombs(w *mon.W, part, parts int) {
 			w.Checkpoint()
 			c.call(s.entry, class, in, func() { run(in) })
 			// peak memory so far against the affine bound
-			if hwm := vmHWM(); hwm > 0 {
+			if hwm := max(vmHWM(), c.lastHeld); hwm > 0 {
 				w.Cover("rss-measured")
-				// VmHWM is the high-water mark of the whole process: compare it with the bound of the
+				// VmHWM is the high-water mark of the whole process (and what the runtime holds after the
+				// call counts pages set aside but never touched): compare it with the bound of the
 				// largest input this process has been given so far
 				if len(in) > maxIn {
 					maxIn = len(in)
@@ -1285,7 +1411,7 @@ func c09Bombs(w *mon.W, part, parts int) {
 				bound := int64(512<<20) + 4096*int64(maxIn)
 				w.Note("rss/"+s.entry+"/"+class, fmt.Sprintf("input %d bytes (largest so far %d), peak RSS so far %d MiB (bound %d MiB)", len(in), maxIn, hwm>>20, bound>>20))
 				if hwm > bound {
-					w.Violate("memory-bound/"+s.entry+"/"+s.kind, fmt.Sprintf("peak RSS %d MiB after %s on a %d-byte %s input exceeds 512 MiB + 4096 x input", hwm>>20, s.entry, len(in), class),
+					w.Violate("memory-bound/"+s.entry+"/"+s.kind, fmt.Sprintf("%d MiB (peak RSS / held by the runtime) after %s on a %d-byte %s input exceed 512 MiB + 4096 x input", hwm>>20, s.entry, len(in), class),
 						map[string]any{"entry": s.entry, "input_class": class, "input_len": len(in), "peak_rss": hwm})
 				}
 			}
